@@ -392,6 +392,9 @@ def topological_sort(nodes):
     def model_sort_rotate():
         node = nodes[index]
         for dep in node.dependencies():
+            dep = enumerator_owner.get(dep, dep)
+            if dep == node.name:
+                continue
             if dep not in known and dep in available:
                 found_index = find_first_dep(dep, index + 1)
                 if found_index:
@@ -401,6 +404,10 @@ def topological_sort(nodes):
 
     known = set(x + y for x in "uir" for y in ["8", "16", "32", "64"])
     available = set(node.name for node in nodes)
+    # a constant may refer to an enumerator: it then depends on the enum that defines it
+    enumerator_owner = dict((member.name, node.name)
+                            for node in nodes if isinstance(node, Enum)
+                            for member in node.members)
     for index in range(len(nodes)):
         rotations = 0
         while model_sort_rotate():
